@@ -43,6 +43,7 @@ _NEV = 0
 _RNG: random.Random | None = None
 _LOCKED = False  # between a flock(LOCK_EX) attempt and flock(LOCK_UN): maybe inside the critical section
 _T_ARMED = False
+OPENS: dict = {}
 
 WATCHED = {"open", "os.remove", "os.mkdir", "os.listdir", "os.scandir", "os.rmdir", "os.rename", "shutil.rmtree",
            "fcntl.flock"}
@@ -144,6 +145,9 @@ def _hook(event: str, args) -> None:  # noqa: C901
         if event == "fcntl.flock":
             _LOCKED = detail != "UN"
         _NEV += 1
+        if event == "open" and rel in ("Q", "D"):  # lock discipline: observed, not judged
+            key = ("w" if detail == "w" else "r") + ("_locked" if in_cs else "_unlocked")
+            OPENS[key] = OPENS.get(key, 0) + 1
         kill_at = CFG.get("kill_at")
         tag = f"{event}{':' + detail if detail else ''}"
         if kill_at is not None and _NEV == int(kill_at):
@@ -648,7 +652,7 @@ def main() -> int:
 
                 for xf in CFG["extra_files"]:
                     D.get_whole_db().load_db_cfg_file(xf)
-            res = {"digest": digest_of(parts), "parts": parts, "events": _NEV, "pid": os.getpid()}
+            res = {"digest": digest_of(parts), "parts": parts, "events": _NEV, "pid": os.getpid(), "opens": OPENS}
         elif mode == "prefixes":
             res = run_prefixes()
         elif mode == "clear":
